@@ -568,6 +568,14 @@ def corpus_decls():
     # class 1, 2, 6: explicit id on a final struct, hashid, non_serialized
     out.append(dict(kind="struct", rname="FinalIds", cname=None, ext="final", nested=False, tuple=False,
                     members=[m("a", P("i32"), id=7), m("color", P("u8"), hashid=True), m("c", P("i16"), ns=True)]))
+    # class 1 alone / class 2 alone
+    out.append(dict(kind="struct", rname="ApIds", cname=None, ext="appendable", nested=False, tuple=False,
+                    members=[m("a", P("i32"), id=7), m("b", P("u8")), m("c", P("i64"), id=9, key=True)]))
+    out.append(dict(kind="struct", rname="Hashed", cname=None, ext="mutable", nested=False, tuple=False,
+                    members=[m("color", P("i32"), hashid=True), m("x", P("i32")), m("shapesize", P("i32"), hashid=True)]))
+    # class 7 alone
+    out.append(dict(kind="struct", rname="Bytes", cname=None, ext="final", nested=False, tuple=False,
+                    members=[m("a", ("vec", P("i8"))), m("b", ("vec", P("u8"))), m("c", ("arr", P("i8"), 2))]))
     # tuple struct, mutable: every field is treated as optional; hashid of the name "1"
     out.append(dict(kind="struct", rname="Tup", cname=None, ext="mutable", nested=False, tuple=True,
                     members=[m("f0", P("i32")), m("f1", ("string",), hashid=True), m("f2", ("arr", P("u8"), 3)),
